@@ -61,13 +61,20 @@ def beyond_cap_worker(spec):
         req, allowed, cap = ref_lr1.state_need(g, tb)
         C['evaluations'] += 1; C['grammars_needing_more_states_than_default_cap'] += (req > cap); out['distinct'].append(g.key())
         res = {}
-        for mode in ('compile_time', 'run_time'):
-            src = BEYOND_TMPL % {'decl': eg.emit_one(g, 0, runtime_ctor=(mode == 'run_time'))}
+        maxitems = max(len(st) for st in tb.states)
+        for mode in ('compile_time', 'run_time', 'user_limits_compile_time', 'user_limits_run_time'):
+            # the documented remedy: user limits of (at least) the needed size must construct the parser, also above the default cap
+            lim = (req + 2, maxitems + 2) if mode.startswith('user_limits') else None
+            src = BEYOND_TMPL % {'decl': eg.emit_one(g, 0, runtime_ctor=mode.endswith('run_time'), limits=lim)}
             try:
                 exe, _ = eg.build_tu(src, 'clang', extra=eg.mode_defines([0]), name='beyond')
             except common.BuildError as e:
                 res[mode] = 'rejected by the compiler'
-                if mode == 'run_time' or 'ctpg.hpp' not in e.diag: out['incon'].append('beyond-cap build: ' + e.diag[:600]); continue
+                if lim and 'ctpg.hpp' in e.diag:
+                    out['viol'].append((['input:' + g.key() + ':user-limits'], 'grammar %s needs %d LR(1) states (default cap %d): constexpr construction with user limits %s is rejected: %s' % (
+                        g.text(), req, cap, lim, ' '.join(l.strip() for l in e.diag.split('\n') if 'exceeds' in l)[:200]), {'grammar': g.to_json(), 'limits': lim, 'diag': e.diag[:1500]}))
+                    continue
+                if mode.endswith('run_time') or 'ctpg.hpp' not in e.diag: out['incon'].append('beyond-cap build: ' + e.diag[:600]); continue
                 out['viol'].append((default_cap_keys(g, e.diag), 'grammar %s needs %d LR(1) states, default cap %d: constexpr construction with the default limits is rejected: %s' % (
                     g.text(), req, cap, ' '.join(l.strip() for l in e.diag.split('\n') if 'exceeds' in l)[:200]), {'grammar': g.to_json(), 'need': req, 'cap': cap, 'diag': e.diag[:1500]}))
                 continue
@@ -77,6 +84,10 @@ def beyond_cap_worker(spec):
                 out['viol'].append((['input:' + g.key(), 'site:construction@crash'], 'grammar %s: run-time construction crashed rc=%s %s' % (g.text(), rc, se.decode('latin-1', 'replace')[-300:]), {'grammar': g.to_json()})); continue
             if text.startswith('THREW'):
                 res[mode] = text.split('\n')[0]
+                if lim:
+                    out['viol'].append((['input:' + g.key() + ':user-limits'], 'grammar %s needs %d LR(1) states (default cap %d): run-time construction with user limits %s throws: %s' % (
+                        g.text(), req, cap, lim, text.split('\n')[0][6:]), {'grammar': g.to_json(), 'limits': lim}))
+                    continue
                 out['viol'].append((default_cap_keys(g, text), 'grammar %s needs %d LR(1) states, default cap %d: run-time construction with the default limits throws: %s' % (
                     g.text(), req, cap, text.split('\n')[0][6:]), {'grammar': g.to_json(), 'need': req, 'cap': cap}))
             else:
